@@ -9,7 +9,9 @@ EXTENDS Integers, FiniteSets, TLC
 Named == {"algorithm", "calculate_voltage_angles", "init", "max_iteration", "tolerance_mva", "trafo_model",
           "trafo_loading", "enforce_q_lims", "check_connectivity", "voltage_depend_loads",
           "consider_line_temperature", "distributed_slack"}
-Kw == {"numba", "switch_rx_ratio", "delta_q", "trafo3w_losses", "neglect_open_switch_branches"}
+Kw == {"numba", "switch_rx_ratio", "delta_q", "trafo3w_losses", "neglect_open_switch_branches", "init_vm_pu"}
+\* init_vm_pu: a keyword-only option whose neutral value is None (D = None: "derive the start voltage from init", A = 1.04)
+Derived == {"init", "max_iteration", "init_vm_pu"}      \* parameters that are observed through derived options
 Params == Named \cup Kw
 
 Eff(st, pa, p) == IF pa[p] # "NotPassed" THEN pa[p] ELSE IF st[p] # "Unset" THEN st[p] ELSE "D"
@@ -17,10 +19,11 @@ Eff(st, pa, p) == IF pa[p] # "NotPassed" THEN pa[p] ELSE IF st[p] # "Unset" THEN
 \* documented derivations (concrete meaning of the tokens is fixed in harness/checks/c34.py):
 \*   algorithm D = "nr", A = "fdbx";  init D = "auto", A = "flat";  max_iteration D = "auto", A = 5
 \*   distributed_slack A = True is rejected for every algorithm but nr
-RejectedOf(e(_)) == e("distributed_slack") = "A" /\ e("algorithm") = "A"
+\*   init = "flat" together with an explicit start voltage is rejected (ValueError: either init or init_vm_pu / init_va_degree)
+RejectedOf(e(_)) == (e("distributed_slack") = "A" /\ e("algorithm") = "A") \/ (e("init") = "A" /\ e("init_vm_pu") = "A")
 ExpectedOf(e(_)) ==
-  [p \in Params \ {"init", "max_iteration"} |-> e(p)] @@
-  [ init_vm_pu     |-> IF e("init") = "D" THEN "auto" ELSE "flat",
+  [p \in Params \ Derived |-> e(p)] @@
+  [ init_vm_pu     |-> IF e("init_vm_pu") = "A" THEN "1.04" ELSE IF e("init") = "D" THEN "auto" ELSE "flat",
     init_va_degree |-> IF e("init") = "D" THEN (IF e("calculate_voltage_angles") = "D" THEN "dc" ELSE "flat") ELSE "flat",
     max_iteration  |-> IF e("max_iteration") = "A" THEN "5" ELSE IF e("algorithm") = "D" THEN "10" ELSE "30" ]
 Rejected(st, pa) == RejectedOf(LAMBDA p : Eff(st, pa, p))
